@@ -577,6 +577,15 @@ def check(ctx):
         ctx.cov["branch_hits"] = dict(sorted(BRANCH.items()))
         ctx.log(f"{len(hs)} histories, {ctx.cov['evaluations']} op lines, {len(diffs)} disagreement(s)")
         diffs.sort(key=lambda d: (len(d.hist), d.idx))      # shrink the short disagreeing histories first (ddmin on a 1000-key run takes minutes)
+        if diffs and all(d.kind == "impl-vs-model" for d in diffs):
+            # the white-box part of a line disagrees before any public observable does: look for a concrete failing input
+            # by running the disagreeing histories again without the white-box part (each history stops at its first difference)
+            again = [[("obs 2" if l == "obs 3" else l) for l in d.hist] for d in diffs[:6000]]
+            more = C.differential(ctx, harness, C.driver_path(DRIVER), again, reference, C.default_eq, timeout=600)
+            conc = [d for d in more if d.kind != "impl-vs-model"]
+            ctx.log(f"white-box disagreement first: {len(again)} histories re-run without it, {len(conc)} concrete failure(s)")
+            conc.sort(key=lambda d: (len(d.hist), d.idx))
+            diffs = conc + diffs
         C.report_diffs(ctx, diffs, harness, C.driver_path(DRIVER), reference, C.default_eq, "avl-ops")
     finally:
         try:
